@@ -390,7 +390,7 @@ class YPPrologCompiler:
         code = []
         for i in range(len(args)):
             if self.head_args_by_pos[i] != None:
-                code.append( YPCodeAssign(YPCodeVar(args[i]),YPCodeVar(self.get_argument_variable(i))) )
+                code.append( YPCodeAssign(YPCodeVar(args[i].varname),YPCodeVar(self.get_argument_variable(i))) )
         return code
     def compile_free_variable_declarations(self,variables):
         code = [ self.compile_variable_declaration(v) for v in variables ]
